@@ -21,7 +21,7 @@ class SIndexError(ModelledError, IndexError):
     pass
 
 
-class NonLinear(Exception):
+class NonLinear(BaseException):
     """the code did something to an input array that is not C-linear (abs, real, product of inputs)"""
 
 
@@ -309,6 +309,22 @@ class LF:
 
     def conjugate(self):
         return LF(self.const.conjugate(), [t.conjugated() for t in self.terms])
+
+    # value-only operations (non-linear in an input element -> NonLinear)
+    def __abs__(self):
+        return abs(self.value())
+
+    def __lt__(self, o):
+        return self.value() < LF.of(o).value()
+
+    def __le__(self, o):
+        return self.value() <= LF.of(o).value()
+
+    def __gt__(self, o):
+        return self.value() > LF.of(o).value()
+
+    def __ge__(self, o):
+        return self.value() >= LF.of(o).value()
 
     def guarded(self, g):
         """multiply by the indicator of z3 Bool g"""
@@ -826,7 +842,7 @@ def broadcast_shapes(sa, sb):
     sb1 = (1,) * (n - len(sb)) + tuple(sb)
     out = []
     for x, y in zip(sa1, sb1):
-        if _same(x, y):
+        if _provable_same(x, y) or _same(x, y):
             out.append(x)
         elif _is_one(x):
             out.append(y)
@@ -837,17 +853,24 @@ def broadcast_shapes(sa, sb):
     return tuple(out)
 
 
-def _bmap(shape, n):
-    """index projection for broadcasting an array of `shape` to rank n"""
+def _bmap(shape, n, target=None):
+    """index projection for broadcasting an array of `shape` to rank n (target: the broadcast shape, when known:
+    an axis whose extent is provably the target extent needs no unit-extent case split)"""
     off = n - len(shape)
-    ones = [_is_one(s) for s in shape]
+    ones = []
+    for d, s_ in enumerate(shape):
+        if target is not None and not (isinstance(s_, int) and s_ == 1) and _provable_same(s_, target[off + d]) \
+                and not _provable(_lift(s_) == 1):
+            ones.append(False)
+        else:
+            ones.append(_is_one(s_))
     return lambda k: tuple(z3.IntVal(0) if ones[d] else k[off + d] for d in range(len(shape)))
 
 
 def broadcast2(a, b, f):
     shape = broadcast_shapes(a.shape, b.shape)
     n = len(shape)
-    pa, pb = _bmap(a.shape, n), _bmap(b.shape, n)
+    pa, pb = _bmap(a.shape, n, shape), _bmap(b.shape, n, shape)
     sa, sb = a._snapshot(), b._snapshot()
     dt = CDT if CDT in (a.dtype, b.dtype) else a.dtype
     return SArr(shape, lambda k: f(sa(pa(k)), sb(pb(k))), dt)
@@ -1647,6 +1670,10 @@ def _float(x=0.0):
 
 
 def _len(x):
+    if isinstance(x, SArr):
+        if not x.shape:
+            raise TypeError("len() of unsized object")
+        return x.shape[0]
     return len(x)
 
 
@@ -2142,7 +2169,7 @@ def _vectorized(f):
         n = len(shape)
         g = [z3.Int(core.fresh_name("g")) for _ in range(n)]
         outer = cur()
-        snaps = [(x._snapshot(), _bmap(x.shape, n)) if isinstance(x, SArr) else None for x in args]
+        snaps = [(x._snapshot(), _bmap(x.shape, n, shape)) if isinstance(x, SArr) else None for x in args]
 
         def scalar_args():
             out = []
